@@ -80,6 +80,15 @@ Proof.
   lia.
 Qed.
 
+Lemma anc_pos : ma_off moov <= ma_off udta /\ ma_off udta <= ma_off meta /\ ma_off meta <= off /\
+                 ma_off moov < zlen f.
+Proof.
+  pose proof positions. pose proof (skip_nonneg (ma_name moov)). pose proof (skip_nonneg (ma_name udta)).
+  pose proof (skip_nonneg (ma_name meta)).
+  destruct top_split as (_ & Hm & _). destruct moov_split as (_ & Hu & _). destruct udta_split as (_ & He & _).
+  pose proof (atom_ok_len _ _ _ Hm). pose proof (atom_ok_len _ _ _ Hu). pose proof (atom_ok_len _ _ _ He). lia.
+Qed.
+
 (* ---- the ancestors *)
 Lemma moov_in : In moov (mp4_flat atoms).
 Proof. apply in_flat_self. rewrite Eatoms. apply in_or_app. right; left; reflexivity. Qed.
@@ -107,7 +116,7 @@ Proof.
 Qed.
 
 Definition ancestors : list mp4_atom := [moov; udta; meta].
-Lemma ancestors_ok : Forall (anc_ok f atoms off) ancestors.
+Lemma ancestors_ok : Forall (anc_ok atoms off) ancestors.
 Proof.
   pose proof positions as P. pose proof (skip_nonneg (ma_name udta)). pose proof (skip_nonneg (ma_name meta)).
   destruct moov_split as (_ & Hu & _). destruct udta_split as (_ & Hm & _).
@@ -116,11 +125,11 @@ Proof.
 Qed.
 Lemma ancestors_nodup : NoDup ancestors.
 Proof.
-  unfold ancestors. repeat constructor; cbn; intros C; repeat (destruct C as [C|C]; try contradiction);
-    try (rewrite C in Nmoov; rewrite Nmoov in *; discriminate);
-    try (rewrite C in Nudta; rewrite Nudta in *; discriminate);
-    try (rewrite <- C in Nudta; rewrite Nudta in *; discriminate);
-    try (rewrite <- C in Nmeta; rewrite Nmeta in *; discriminate).
+  assert (D1 : moov <> udta) by (intros C; rewrite C in Nmoov; rewrite Nmoov in Nudta; discriminate).
+  assert (D2 : moov <> meta) by (intros C; rewrite C in Nmoov; rewrite Nmoov in Nmeta; discriminate).
+  assert (D3 : udta <> meta) by (intros C; rewrite C in Nudta; rewrite Nudta in Nmeta; discriminate).
+  unfold ancestors. constructor; [cbn; intuition congruence|]. constructor; [cbn; intuition congruence|].
+  constructor; [cbn; tauto|constructor].
 Qed.
 
 (* ---- where the tables are *)
@@ -164,15 +173,20 @@ Proof.
   assert (Nx : ma_name x <> N_moov /\ ma_name x <> N_udta /\ ma_name x <> N_meta).
   { unfold is_table_name, mp4_named in Hn. repeat split; intros C; rewrite C in Hn; discriminate. }
   destruct Nx as (X1 & X2 & X3).
+  pose proof (atom_ok_len _ _ _ H2) as L1. pose proof (atom_ok_len _ _ _ H5) as L2. pose proof (atom_ok_len _ _ _ H8) as L3.
+  pose proof (skip_nonneg (ma_name moov)) as S1. pose proof (skip_nonneg (ma_name udta)) as S2. pose proof (skip_nonneg (ma_name meta)) as S3.
   rewrite Eatoms in Hx. apply flat_in_split in Hx.
-  destruct Hx as [Hx|[->|[(ks & Hk & Hx)|Hx]]]; [eapply placed_before; eauto; lia|congruence| |eapply placed_after; eauto; lia].
+  destruct Hx as [Hx|[->|[(ks & Hk & Hx)|Hx]]];
+    [apply (placed_before _ _ _ _ _ H1); [lia|exact Hx]|congruence| |apply (placed_after _ _ _ _ _ H3); [lia|exact Hx]].
   rewrite Kmoov in Hk. inversion Hk; subst ks. apply flat_in_split in Hx.
-  destruct Hx as [Hx|[->|[(ks & Hk2 & Hx)|Hx]]]; [eapply placed_before; eauto; lia|congruence| |eapply placed_after; eauto; lia].
+  destruct Hx as [Hx|[->|[(ks & Hk2 & Hx)|Hx]]];
+    [apply (placed_before _ _ _ _ _ H4); [lia|exact Hx]|congruence| |apply (placed_after _ _ _ _ _ H6); [lia|exact Hx]].
   rewrite Kudta in Hk2. inversion Hk2; subst ks. apply flat_in_split in Hx.
-  destruct Hx as [Hx|[->|[(ks & Hk3 & Hx)|Hx]]]; [eapply placed_before; eauto; lia|congruence| |eapply placed_after; eauto; lia].
+  destruct Hx as [Hx|[->|[(ks & Hk3 & Hx)|Hx]]];
+    [apply (placed_before _ _ _ _ _ H7); [lia|exact Hx]|congruence| |apply (placed_after _ _ _ _ _ H9); [lia|exact Hx]].
   rewrite Kmeta in Hk3. inversion Hk3; subst ks. rewrite !flat_app in Hx.
-  apply in_app_or in Hx. destruct Hx as [Hx|Hx]; [eapply placed_before; eauto; lia|].
-  apply in_app_or in Hx. destruct Hx as [Hx|Hx]; [|eapply placed_after; eauto; lia].
+  apply in_app_or in Hx. destruct Hx as [Hx|Hx]; [apply (placed_before _ _ _ _ _ FA); [lia|exact Hx]|].
+  apply in_app_or in Hx. destruct Hx as [Hx|Hx]; [|apply (placed_after _ _ _ _ _ FB); [lia|exact Hx]].
   rewrite (region_no_table x Hx) in Hn. discriminate.
 Qed.
 
@@ -200,4 +214,292 @@ Hypothesis Hrun2 : mp4_update_offsets atoms (zlen data - old) off f2 = Ok f'.
 Definition ex_result :=
   surgery_result f atoms Hwf Htab off old data (proj1 region_fits) (proj1 (proj2 region_fits)) (proj2 (proj2 region_fits))
     tables_placed ancestors ancestors_ok ancestors_nodup f2 f' Hrun1 Hrun2.
+
+(* ================================================================== the tree of the result *)
+Let delta := zlen data - old.
+
+Lemma member_of_part l x : (forall y, In y l -> In y (mp4_flat atoms)) -> In x l -> In x (mp4_flat atoms).
+Proof. auto. Qed.
+
+Lemma T1_in x : In x (mp4_flat T1) -> In x (mp4_flat atoms).
+Proof. intros H. rewrite Eatoms, flat_app. apply in_or_app. left; exact H. Qed.
+Lemma T2_in x : In x (mp4_flat T2) -> In x (mp4_flat atoms).
+Proof. intros H. rewrite Eatoms, flat_app, flat_cons. apply in_or_app. right. apply in_or_app. right; exact H. Qed.
+Lemma M1_in x : In x (mp4_flat M1) -> In x (mp4_flat atoms).
+Proof. intros H. eapply kids_flat_in; [exact moov_in|exact Kmoov|]. rewrite flat_app. apply in_or_app. left; exact H. Qed.
+Lemma M2_in x : In x (mp4_flat M2) -> In x (mp4_flat atoms).
+Proof. intros H. eapply kids_flat_in; [exact moov_in|exact Kmoov|]. rewrite flat_app, flat_cons. apply in_or_app. right. apply in_or_app. right; exact H. Qed.
+Lemma U1_in x : In x (mp4_flat U1) -> In x (mp4_flat atoms).
+Proof. intros H. eapply kids_flat_in; [exact udta_in|exact Kudta|]. rewrite flat_app. apply in_or_app. left; exact H. Qed.
+Lemma U2_in x : In x (mp4_flat U2) -> In x (mp4_flat atoms).
+Proof. intros H. eapply kids_flat_in; [exact udta_in|exact Kudta|]. rewrite flat_app, flat_cons. apply in_or_app. right. apply in_or_app. right; exact H. Qed.
+Lemma A_in x : In x (mp4_flat A) -> In x (mp4_flat atoms).
+Proof. intros H. eapply kids_flat_in; [exact meta_in|exact Kmeta|]. rewrite flat_app. apply in_or_app. left; exact H. Qed.
+Lemma B_in x : In x (mp4_flat B) -> In x (mp4_flat atoms).
+Proof. intros H. eapply kids_flat_in; [exact meta_in|exact Kmeta|]. rewrite !flat_app. apply in_or_app. right. apply in_or_app. right; exact H. Qed.
+
+(* the header of any atom other than the three ancestors avoids every patch site *)
+Lemma header_clear x : In x (mp4_flat atoms) -> ~ In x ancestors ->
+  (forall An, In An ancestors -> clear_of (ma_off x) (ma_hdr x) (ma_off An) (ma_off An + ma_hdr An)) /\
+  (forall T, In T (all_tabs atoms) -> clear_of (ma_off x) (ma_hdr x) (ma_off T + 16) (ma_off T + ma_len T)).
+Proof.
+  intros Hx Hn. destruct (flat_member_ok f atoms Hwf x Hx) as (top & Hok). pose proof (atom_ok_len _ _ _ Hok) as Lx.
+  pose proof (skip_nonneg (ma_name x)) as Sx.
+  assert (Hseg : s_lo (seg_of x) = ma_off x /\ ma_off x + ma_hdr x <= s_hi (seg_of x)).
+  { unfold seg_of, s_lo, s_hi. destruct (ma_kids x); cbn; lia. }
+  split.
+  - intros An HA. pose proof ancestors_ok as AO. rewrite Forall_forall in AO. destruct (AO An HA) as (HAin & (k & HAk) & _).
+    destruct (segs_disjoint _ _ _ _ _ x An Hwf Hx HAin) as [E|D]; [subst; contradiction|].
+    pose proof (skip_nonneg (ma_name An)).
+    assert (HsA : s_lo (seg_of An) = ma_off An /\ s_hi (seg_of An) = ma_off An + ma_hdr An + mp4_skip (ma_name An))
+      by (unfold seg_of, s_lo, s_hi; rewrite HAk; split; reflexivity).
+    unfold clear_of. lia.
+  - intros T HT. pose proof (member_facts f atoms Hwf off old data tables_placed T HT) as (HTin & _ & _ & _ & LT & KT).
+    destruct (segs_disjoint _ _ _ _ _ x T Hwf Hx HTin) as [E|D].
+    + subst. unfold clear_of. lia.
+    + assert (HsT : s_lo (seg_of T) = ma_off T /\ s_hi (seg_of T) = ma_off T + ma_len T)
+        by (unfold seg_of, s_lo, s_hi; rewrite KT; split; reflexivity).
+      unfold clear_of. lia.
+Qed.
+
+Lemma not_anc_by_pos x : (ma_off x + ma_len x <= off \/ off + old <= ma_off x) -> 8 <= ma_len x -> ~ In x ancestors.
+Proof.
+  intros Hp Hl Hin. pose proof positions as P. pose proof old_pos.
+  destruct top_split as (_ & Hm & _). destruct moov_split as (_ & Hu & _). destruct udta_split as (_ & He & _).
+  pose proof (atom_ok_len _ _ _ Hm). pose proof (atom_ok_len _ _ _ Hu). pose proof (atom_ok_len _ _ _ He).
+  pose proof (skip_nonneg (ma_name moov)). pose proof (skip_nonneg (ma_name udta)). pose proof (skip_nonneg (ma_name meta)).
+  unfold ancestors in Hin. cbn in Hin. destruct Hin as [<-|[<-|[<-|[]]]]; lia.
+Qed.
+
+Definition fres := ex_result.
+
+Lemma before_hdr top l p e : mp4_forest_ok f top l p e = true -> e <= off -> (forall y, In y (mp4_flat l) -> In y (mp4_flat atoms)) ->
+  Forall (hdr_agree f f' 0) (mp4_flat l).
+Proof.
+  intros Hf He Hin. apply Forall_forall. intros x Hx. pose proof (Hin x Hx) as Hxa.
+  pose proof (forest_within _ _ _ _ _ Hf) as W. rewrite Forall_forall in W. specialize (W x Hx). unfold within in W.
+  destruct (flat_member_ok f atoms Hwf x Hxa) as (top' & Hok). pose proof (atom_ok_len _ _ _ Hok) as Lx.
+  destruct (header_clear x Hxa) as (C1 & C2). { apply not_anc_by_pos; lia. }
+  destruct fres as (_ & Fr & _). unfold hdr_agree. rewrite Z.add_0_r.
+  pose proof (Fr (ma_off x) (ma_hdr x)) as X. unfold mv in X.
+  destruct (off + old <=? ma_off x) eqn:E; [pose proof old_pos; lia|]. apply X; try lia; auto. unfold clear_of. lia.
+Qed.
+Lemma after_hdr top l p e : mp4_forest_ok f top l p e = true -> off + old <= p -> (forall y, In y (mp4_flat l) -> In y (mp4_flat atoms)) ->
+  Forall (hdr_agree f f' delta) (mp4_flat l).
+Proof.
+  intros Hf He Hin. apply Forall_forall. intros x Hx. pose proof (Hin x Hx) as Hxa.
+  pose proof (forest_within _ _ _ _ _ Hf) as W. rewrite Forall_forall in W. specialize (W x Hx). unfold within in W.
+  destruct (flat_member_ok f atoms Hwf x Hxa) as (top' & Hok). pose proof (atom_ok_len _ _ _ Hok) as Lx.
+  destruct (header_clear x Hxa) as (C1 & C2). { apply not_anc_by_pos; lia. }
+  destruct fres as (_ & Fr & _). unfold hdr_agree.
+  pose proof (Fr (ma_off x) (ma_hdr x)) as X. unfold mv in X.
+  destruct (off + old <=? ma_off x) eqn:E; [|lia]. apply X; try lia; auto. unfold clear_of. lia.
+Qed.
+
+Lemma zlen_result : zlen f' = zlen f + delta.
+Proof. destruct fres as (Z & _). exact Z. Qed.
+
+(* an ancestor's header in the result carries its length + delta *)
+Lemma anc_header_result top An : In An ancestors -> mp4_atom_ok f top An = true ->
+  (top = true -> ma_off An + ma_len An = zlen f \/ be_decode (mp4_rd f (ma_off An) 4) <> 0) ->
+  mp4_header_ok f' top (ma_name An) (ma_off An) (ma_len An + delta) (ma_hdr An) = true.
+Proof.
+  intros HA Hok Htop. pose proof ancestors_ok as AO. rewrite Forall_forall in AO. pose proof (AO An HA) as HA'.
+  destruct fres as (_ & _ & _ & UA & _). specialize (UA An HA). destruct UA as (U1n & U0 & U64 & U32).
+  pose proof (anc_header f atoms Hwf off old data An HA') as (F0 & Fh & Fo & F8 & Fn & F64 & F32 & Fz).
+  pose proof (atom_ok_header _ _ _ Hok) as Hh. pose proof (header_ok_facts _ _ _ _ _ _ Hh) as (G1 & G2 & G3 & G4 & G5 & G6 & G7).
+  pose proof zlen_result as ZR. pose proof positions as P. pose proof old_pos as OP. pose proof (zlen_nonneg data) as DN.
+  pose proof (skip_nonneg (ma_name An)) as SA. destruct HA' as (_ & _ & HApos).
+  assert (Hcontains : off + old <= ma_off An + ma_len An).
+  { destruct top_split as (_ & Hm & _). destruct moov_split as (_ & Hu & _). destruct udta_split as (_ & He & _).
+    unfold ancestors in HA. cbn in HA. destruct HA as [<-|[<-|[<-|[]]]]; lia. }
+  fold delta in U64, U32. assert (Hd : delta = zlen data - old) by reflexivity.
+  (* the 8 header bytes of the result *)
+  assert (R4 : zlen (mp4_rd f' (ma_off An) 8) = 8) by (apply zlen_rd_in; lia).
+  assert (R8 : mp4_rd f' (ma_off An) 8 = mp4_rd f' (ma_off An) 4 ++ mp4_rd f' (ma_off An + 4) 4).
+  { replace 8 with (4 + 4) at 1 by lia. apply rd_app_split; lia. }
+  unfold mp4_header_ok. rewrite R4. cbn [Z.eqb Pos.eqb].
+  assert (K1 : (0 <=? ma_off An) = true) by (apply Z.leb_le; lia). rewrite K1.
+  assert (K2 : (ma_off An + (ma_len An + delta) <=? zlen f') = true) by (apply Z.leb_le; lia). rewrite K2.
+  rewrite R8. rewrite ztake_app_n by (apply zlen_rd_in; lia). rewrite zdrop_app_n by (apply zlen_rd_in; lia).
+  rewrite U1n, Fn. assert (K3 : list_eqb (ma_name An) (ma_name An) = true) by (apply list_eqb_spec; reflexivity). rewrite K3.
+  cbn [andb].
+  destruct (Z.eq_dec (be_decode (mp4_rd f (ma_off An) 4)) 0) as [Z0|N0].
+  - (* size 0: only at top level, runs to the end of the file *)
+    assert (Htp : top = true /\ ma_len An = zlen f - ma_off An).
+    { unfold mp4_header_ok in Hh. rewrite ztake_rd in Hh by lia. rewrite Z0 in Hh.
+      apply andb_true_iff in Hh. destruct Hh as [_ HE]. destruct top; [split; [reflexivity|]|lia]. lia. }
+    destruct Htp as (-> & Hlen). rewrite (U0 Z0), Z0. rewrite (Fz Z0). cbn [Z.eqb andb orb].
+    assert (K4 : (ma_len An + delta =? zlen f' - ma_off An) = true) by (apply Z.eqb_eq; lia). rewrite K4.
+    rewrite !orb_true_r. reflexivity.
+  - destruct (Z.eq_dec (be_decode (mp4_rd f (ma_off An) 4)) 1) as [Z1|N1].
+    + destruct (F64 Z1) as (Hh16 & _). destruct (U64 Z1) as (V1 & V2). rewrite V1, Z1, Hh16. cbn [Z.eqb Pos.eqb andb orb].
+      rewrite zlen_rd_in by lia. rewrite V2. rewrite Z.eqb_refl. cbn [Z.eqb Pos.eqb andb].
+      assert (K4 : (16 <=? ma_len An + delta) = true) by (apply Z.leb_le; lia). rewrite K4.
+      rewrite Z.eqb_refl. reflexivity.
+    + destruct (F32 N0 N1) as (Hh8 & _). rewrite (U32 N0 N1), Hh8. cbn [Z.eqb Pos.eqb andb]. rewrite Z.eqb_refl.
+      assert (K4 : (8 <=? ma_len An + delta) = true) by (apply Z.leb_le; lia). rewrite K4. reflexivity.
+Qed.
+
+Variables (ilst_data : list Z) (pad : Z) (it : mp4_atom).
+Hypothesis Hdata : data = ilst_data ++ mp4_render N_free (zeros pad).
+Hypothesis Hpad : pad <= MP4_MAXPAD.
+Hypothesis Hit : mp4_forest_ok ilst_data false [it] 0 (zlen ilst_data) = true.
+
+Let fr := mp4_render N_free (zeros pad).
+Definition new_ilst : mp4_atom := shift_atom off it.
+Definition new_free : mp4_atom :=
+  MAtom N_free (off + zlen ilst_data) (zlen fr) (if zlen (zeros pad) + 8 <=? 4294967295 then 8 else 16) None.
+Definition new_meta : mp4_atom :=
+  MAtom (ma_name meta) (ma_off meta) (ma_len meta + delta) (ma_hdr meta) (Some (A ++ [new_ilst; new_free] ++ shift_forest delta B)).
+Definition new_udta : mp4_atom :=
+  MAtom (ma_name udta) (ma_off udta) (ma_len udta + delta) (ma_hdr udta) (Some (U1 ++ new_meta :: shift_forest delta U2)).
+Definition new_moov : mp4_atom :=
+  MAtom (ma_name moov) (ma_off moov) (ma_len moov + delta) (ma_hdr moov) (Some (M1 ++ new_udta :: shift_forest delta M2)).
+Definition new_atoms : list mp4_atom := T1 ++ new_moov :: shift_forest delta T2.
+
+Lemma zlen_zeros_any n : zlen (zeros n) = Z.max 0 n.
+Proof. destruct (Z.le_gt_cases 0 n); [rewrite zlen_zeros by lia; lia|rewrite zeros_neg by lia; cbn; lia]. Qed.
+
+Lemma region_new : mp4_forest_ok f' false [new_ilst; new_free] off (off + zlen data) = true.
+Proof.
+  destruct fres as (_ & _ & AGD & _). pose proof (zlen_nonneg ilst_data) as Hi0. pose proof region_fits as (R0 & R1 & R2).
+  assert (Hfr : zlen data = zlen ilst_data + zlen fr) by (rewrite Hdata, zlen_app; reflexivity).
+  assert (Hfrn : zlen N_free = 4) by reflexivity. pose proof (zlen_nonneg fr) as Hfr0.
+  pose proof (zlen_render N_free (zeros pad) Hfrn) as HL. fold fr in HL. pose proof (zlen_zeros_any pad) as HZ.
+  (* the new ilst *)
+  assert (H1 : mp4_forest_ok f' false (shift_forest off [it]) (0 + off) (zlen ilst_data + off) = true).
+  { apply (forest_ok_transfer ilst_data f' off false [it] 0 (zlen ilst_data) Hit).
+    - apply Forall_forall. intros x Hx. pose proof (forest_within _ _ _ _ _ Hit) as W. rewrite Forall_forall in W.
+      specialize (W x Hx). unfold within in W.
+      pose proof (forest_flat_ok _ _ _ _ _ Hit) as FO. rewrite Forall_forall in FO.
+      assert (Lx : 8 <= ma_len x /\ ma_hdr x <= ma_len x /\ 0 <= ma_hdr x).
+      { destruct (FO x Hx) as [E|E]; apply atom_ok_len in E; lia. }
+      unfold hdr_agree. eapply agree_trans; [apply (agree_app_l ilst_data fr); lia|].
+      replace (ilst_data ++ fr) with data by (rewrite Hdata; reflexivity).
+      pose proof (agree_sub _ _ _ _ _ (ma_off x) (ma_hdr x) AGD) as X. cbn [Z.add] in X.
+      replace (ma_off x + off) with (off + ma_off x) by lia. apply X; lia.
+    - destruct AGD as (_ & _ & _ & X & _). lia.
+    - discriminate. }
+  cbn [shift_forest map] in H1. apply forest_ok_cons in H1. destruct H1 as (E1 & E2 & E3). apply forest_ok_nil in E3.
+  apply forest_ok_intro; [unfold new_ilst; lia|exact E2|].
+  apply forest_ok_intro.
+  - unfold new_free. cbn [ma_off]. unfold new_ilst. lia.
+  - unfold new_free, fr. apply render_leaf_ok; [reflexivity|reflexivity|unfold MP4_U64, MP4_MAXPAD in *; lia|].
+    fold fr. pose proof (agree_app_r ilst_data fr) as X. replace (ilst_data ++ fr) with data in X by (rewrite Hdata; reflexivity).
+    eapply agree_trans; [exact X|].
+    pose proof (agree_sub _ _ _ _ _ (zlen ilst_data) (zlen fr) AGD) as Y. cbn [Z.add] in Y.
+    apply Y; lia.
+  - cbn. apply Z.eqb_eq. unfold new_free, new_ilst. cbn [ma_off ma_len]. lia.
+Qed.
+
+Lemma result_fits : off + zlen data <= zlen f'.
+Proof. destruct fres as (_ & _ & (_ & _ & _ & X & _) & _). exact X. Qed.
+
+Lemma meta_kids_new :
+  mp4_forest_ok f' false (A ++ [new_ilst; new_free] ++ shift_forest delta B)
+    (ma_off meta + ma_hdr meta + mp4_skip (ma_name meta)) (ma_off meta + (ma_len meta + delta)) = true.
+Proof.
+  pose proof positions as P. pose proof zlen_result as ZR. pose proof result_fits as RF. pose proof old_pos.
+  pose proof (zlen_nonneg data) as DN. assert (Hd : delta = zlen data - old) by reflexivity. pose proof anc_pos as AP.
+  apply forest_ok_app_intro with (m := off).
+  - apply (forest_ok_same f f' false A _ _ FA); [apply (before_hdr _ _ _ _ FA); [lia|exact A_in]|lia|discriminate].
+  - apply forest_ok_app_intro with (m := off + zlen data); [exact region_new|].
+    pose proof (forest_ok_transfer f f' delta false B (off + old) (ma_off meta + ma_len meta) FB) as X.
+    replace (off + old + delta) with (off + zlen data) in X by (unfold delta; lia).
+    replace (ma_off meta + ma_len meta + delta) with (ma_off meta + (ma_len meta + delta)) in X by lia.
+    apply X; [apply (after_hdr _ _ _ _ FB); [lia|exact B_in]|lia|discriminate].
+Qed.
+
+Lemma new_meta_ok : mp4_atom_ok f' false new_meta = true.
+Proof.
+  destruct udta_split as (_ & Hm & _). unfold new_meta. rewrite atom_ok_node.
+  rewrite (anc_header_result false meta); [|unfold ancestors; cbn; tauto|exact Hm|discriminate].
+  destruct (atom_ok_kids _ _ _ _ Hm Kmeta) as (Hc & _). rewrite Hc. cbn [andb]. exact meta_kids_new.
+Qed.
+
+Lemma new_udta_ok : mp4_atom_ok f' false new_udta = true.
+Proof.
+  pose proof positions as P. pose proof zlen_result as ZR. pose proof result_fits as RF. pose proof old_pos.
+  pose proof (zlen_nonneg data) as DN. assert (Hd : delta = zlen data - old) by reflexivity. pose proof anc_pos as AP.
+  destruct moov_split as (_ & Hu & _). destruct udta_split as (H7 & H8 & H9).
+  unfold new_udta. rewrite atom_ok_node.
+  rewrite (anc_header_result false udta); [|unfold ancestors; cbn; tauto|exact Hu|discriminate].
+  destruct (atom_ok_kids _ _ _ _ Hu Kudta) as (Hc & _). rewrite Hc. cbn [andb].
+  apply forest_ok_app_intro with (m := ma_off meta).
+  - apply (forest_ok_same f f' false U1 _ _ H7); [apply (before_hdr _ _ _ _ H7); [lia|exact U1_in]|lia|discriminate].
+  - apply forest_ok_intro; [reflexivity|exact new_meta_ok|]. unfold new_meta. cbn [ma_off ma_len].
+    pose proof (forest_ok_transfer f f' delta false U2 _ _ H9) as X.
+    replace (ma_off meta + ma_len meta + delta) with (ma_off meta + (ma_len meta + delta)) in X by lia.
+    replace (ma_off udta + ma_len udta + delta) with (ma_off udta + (ma_len udta + delta)) in X by lia.
+    apply X; [apply (after_hdr _ _ _ _ H9); [lia|exact U2_in]|lia|discriminate].
+Qed.
+
+Lemma new_moov_ok : mp4_atom_ok f' true new_moov = true.
+Proof.
+  pose proof positions as P. pose proof zlen_result as ZR. pose proof result_fits as RF. pose proof old_pos.
+  pose proof (zlen_nonneg data) as DN. assert (Hd : delta = zlen data - old) by reflexivity. pose proof anc_pos as AP.
+  destruct top_split as (_ & Hm & _). destruct moov_split as (H4 & H5 & H6).
+  unfold new_moov. rewrite atom_ok_node.
+  rewrite (anc_header_result true moov); [|unfold ancestors; cbn; tauto|exact Hm|].
+  2:{ intros _. destruct (Z.eq_dec (be_decode (mp4_rd f (ma_off moov) 4)) 0) as [Z0|N0]; [left|right; exact N0].
+      pose proof (atom_ok_header _ _ _ Hm) as Hh. pose proof (header_ok_facts _ _ _ _ _ _ Hh) as (G1 & G2 & G3 & G4 & G5 & G6 & G7).
+      unfold mp4_header_ok in Hh. rewrite ztake_rd in Hh by lia. rewrite Z0 in Hh.
+      apply andb_true_iff in Hh. destruct Hh as [_ HE]. lia. }
+  destruct (atom_ok_kids _ _ _ _ Hm Kmoov) as (Hc & _). rewrite Hc. cbn [andb].
+  apply forest_ok_app_intro with (m := ma_off udta).
+  - apply (forest_ok_same f f' false M1 _ _ H4); [apply (before_hdr _ _ _ _ H4); [lia|exact M1_in]|lia|discriminate].
+  - apply forest_ok_intro; [reflexivity|exact new_udta_ok|]. unfold new_udta. cbn [ma_off ma_len].
+    pose proof (forest_ok_transfer f f' delta false M2 _ _ H6) as X.
+    replace (ma_off udta + ma_len udta + delta) with (ma_off udta + (ma_len udta + delta)) in X by lia.
+    replace (ma_off moov + ma_len moov + delta) with (ma_off moov + (ma_len moov + delta)) in X by lia.
+    apply X; [apply (after_hdr _ _ _ _ H6); [lia|exact M2_in]|lia|discriminate].
+Qed.
+
+(* every ancestor's size field equals the extent of its children; atoms tile their parents at every level *)
+Theorem existing_result_wellformed : mp4_forest_ok f' true new_atoms 0 (zlen f') = true.
+Proof.
+  pose proof positions as P. pose proof zlen_result as ZR. pose proof result_fits as RF. pose proof old_pos.
+  pose proof (zlen_nonneg data) as DN. assert (Hd : delta = zlen data - old) by reflexivity. pose proof anc_pos as AP.
+  destruct top_split as (H1 & H2 & H3). pose proof (atom_ok_len _ _ _ H2) as L2.
+  unfold new_atoms. apply forest_ok_app_intro with (m := ma_off moov).
+  - apply (forest_ok_same f f' true T1 _ _ H1); [apply (before_hdr _ _ _ _ H1); [lia|exact T1_in]|lia|].
+    intros _. right. lia.
+  - apply forest_ok_intro; [reflexivity|exact new_moov_ok|]. unfold new_moov. cbn [ma_off ma_len].
+    pose proof (forest_ok_transfer f f' delta true T2 _ _ H3) as X.
+    replace (ma_off moov + ma_len moov + delta) with (ma_off moov + (ma_len moov + delta)) in X by lia.
+    rewrite ZR. apply X; [apply (after_hdr _ _ _ _ H3); [lia|exact T2_in]|lia|].
+    intros _. left. lia.
+Qed.
+
+(* a leaf atom outside the region that is not an offset table (mdat, ftyp, free ...): all its bytes are kept *)
+Lemma leaf_preserved L : In L (mp4_flat atoms) -> ma_kids L = None -> is_table_name L = false ->
+  (ma_off L + ma_len L <= off \/ off + old <= ma_off L) ->
+  agree f (ma_off L) f' (mv off old data (ma_off L)) (ma_len L).
+Proof.
+  intros HL KL NL Hpos. destruct (flat_member_ok f atoms Hwf L HL) as (top & Hok). pose proof (atom_ok_len _ _ _ Hok) as LL.
+  destruct fres as (_ & Fr & _). apply Fr; try lia.
+  - unfold clear_of. lia.
+  - intros An HA. pose proof ancestors_ok as AO. rewrite Forall_forall in AO. destruct (AO An HA) as (HAin & (k & HAk) & _).
+    destruct (segs_disjoint _ _ _ _ _ L An Hwf HL HAin) as [E|D]; [subst; congruence|].
+    pose proof (skip_nonneg (ma_name An)).
+    assert (HsA : s_lo (seg_of An) = ma_off An /\ s_hi (seg_of An) = ma_off An + ma_hdr An + mp4_skip (ma_name An))
+      by (unfold seg_of, s_lo, s_hi; rewrite HAk; split; reflexivity).
+    assert (HsL : s_lo (seg_of L) = ma_off L /\ s_hi (seg_of L) = ma_off L + ma_len L)
+      by (unfold seg_of, s_lo, s_hi; rewrite KL; split; reflexivity).
+    unfold clear_of. lia.
+  - intros T HT. pose proof (member_facts f atoms Hwf off old data tables_placed T HT) as (HTin & _ & _ & _ & LT & KT).
+    assert (Hne : L <> T).
+    { intros ->. unfold all_tabs in HT. apply in_app_or in HT. unfold is_table_name, mp4_named in NL.
+      destruct HT as [HT|HT]; [destruct (stco_in atoms T HT) as (_ & E); rewrite E in NL; discriminate|].
+      apply in_app_or in HT. destruct HT as [HT|HT]; [destruct (co64_in atoms T HT) as (_ & E); rewrite E in NL; discriminate|].
+      destruct (tfhd_in atoms T HT) as (_ & E); rewrite E in NL; discriminate. }
+    destruct (segs_disjoint _ _ _ _ _ L T Hwf HL HTin) as [E|D]; [contradiction|].
+    assert (HsT : s_lo (seg_of T) = ma_off T /\ s_hi (seg_of T) = ma_off T + ma_len T)
+      by (unfold seg_of, s_lo, s_hi; rewrite KT; split; reflexivity).
+    assert (HsL : s_lo (seg_of L) = ma_off L /\ s_hi (seg_of L) = ma_off L + ma_len L)
+      by (unfold seg_of, s_lo, s_hi; rewrite KL; split; reflexivity).
+    unfold clear_of. lia.
+Qed.
+(*EXISTING-CONTINUES*)
 End Existing.
